@@ -192,6 +192,16 @@ def case_fn(case):
 
     z, H, g, dz = rhydro.hydrostatic(levels, T, mu, M * MJUP, R * RJUP)
     dens = rhydro.number_density(P, T)
+    # the planet's own integration, in every length unit it offers (the default is metres)
+    for unit, fac in (('m', 1.0), ('km', 1e-3), ('cm', 1e2)):
+        with np.errstate(all='ignore'):
+            out = tm.planet.calculate_scale_properties(T, levels, mu, length_units=unit) if unit != 'm' else \
+                tm.planet.calculate_scale_properties(T, levels, mu)
+        for nm_, a_, w_ in zip(('z', 'H', 'g', 'dz'), out, (z, H, g, dz)):
+            a_ = np.asarray(a_, dtype=float)
+            if r.check(a_.shape == w_.shape, 'length', 'scale-properties/length/%s/%s' % (nm_, unit), got=a_.shape,
+                       want=w_.shape):
+                r.eq(a_, w_ * fac, 'value', 'scale-properties/value/%s/%s' % (nm_, unit), rtol=1e-9, atol=0)
     want = {'altitude_boundaries': z, 'altitudeProfile': z[:-1], 'deltaz': dz, 'gravity_profile': g,
             'scaleheight_profile': H, 'densityProfile': dens}
     got = {}
@@ -271,7 +281,12 @@ def compare_profiles(r, where, have, want, n):
 # ---------------------------------------------------------------------------------------------
 HIST_ALPHABET = [['planet_radius', 0.6], ['planet_radius', 1.5], ['planet_mass', 0.4], ['planet_mass', 2.5],
                  ['T', 600.0], ['T', 2100.0], ['atm_max_pressure', 1e5], ['atm_max_pressure', 1e7],
-                 ['atm_min_pressure', 1e-3], ['atm_min_pressure', 1e0], ['H2O', 1e-6], ['H2O', 0.3], ['He_H2', 0.5]]
+                 ['atm_min_pressure', 1e-3], ['atm_min_pressure', 1e0], ['H2O', 1e-6], ['H2O', 0.3], ['He_H2', 0.5],
+                 # mass and radius written together, to a pair with exactly the surface gravity of the start, and to
+                 # temperature / weight pairs with the same surface scale height
+                 ['__multi__', [['planet_mass', 4.0], ['planet_radius', 2.0]]],
+                 ['__multi__', [['planet_mass', 0.25], ['planet_radius', 0.5]]],
+                 ['__multi__', [['T', 2400.0], ['planet_mass', 2.0]]]]
 HIST_REDUCED = [['planet_radius', 0.6], ['planet_radius', 1.5], ['planet_mass', 0.4], ['T', 600.0], ['H2O', 0.3],
                 ['atm_max_pressure', 1e5]]
 STRUCT_ATTRS = ['pressureProfile', 'temperatureProfile', 'densityProfile', 'altitudeProfile', 'gravity_profile',
